@@ -30,6 +30,7 @@ type HarnessSpec struct {
 	Solver    string `json:"solver,omitempty"`
 	Tier      string `json:"tier,omitempty"` // "thorough" = only in thorough tier
 	Clause    string `json:"clause,omitempty"`
+	ExactReal bool   `json:"exact_real,omitempty"`
 }
 
 type Spec struct {
@@ -257,7 +258,7 @@ func cmdRun(args []string) int {
 			to = 20000
 		}
 		return &interp.Config{InitPkgs: interp.DefaultInitPkgs, TrackPkgs: []string{"github.com/paulmach/orb", "github.com/paulmach/protoscan"},
-			MaxSteps: h.MaxSteps, FloatFP: h.FloatFP, TimeoutMs: to, SolverBin: h.Solver, MaxPaths: h.MaxPaths, Trace: *trace, MergeFuncs: mergeSet}
+			MaxSteps: h.MaxSteps, FloatFP: h.FloatFP, TimeoutMs: to, SolverBin: h.Solver, MaxPaths: h.MaxPaths, Trace: *trace, MergeFuncs: mergeSet, ExactReal: h.ExactReal}
 	}
 	// enumerate jobs
 	var jobs []job
